@@ -28,6 +28,7 @@ type ObsOp struct {
 	Kind  string `json:"kind"` // sel | selfu | ins | inc | commit | rollback
 	Table int    `json:"table"`
 	Key   int    `json:"key"`
+	Form  int    `json:"form,omitempty"` // how the statement spells / uses the table (reads: 0 plain, 1 with extension, 2 self-join, 3 sub-query, 4 alias)
 }
 
 type c20Meta struct {
@@ -42,13 +43,32 @@ func renderObsProcs(sc *Scenario, meta *c20Meta) {
 			t := tableName(op.Table)
 			switch op.Kind {
 			case "sel":
-				s = append(s, fmt.Sprintf("ECHO '@Q %d';", i), fmt.Sprintf("SELECT id, n FROM %s;", t))
+				q := fmt.Sprintf("SELECT id, n FROM %s;", t)
+				switch op.Form {
+				case 1:
+					q = fmt.Sprintf("SELECT id, n FROM `%s.csv`;", t)
+				case 2:
+					q = fmt.Sprintf("SELECT a.id, b.n FROM %s a JOIN %s b ON a.id = b.id;", t, t)
+				case 3:
+					q = fmt.Sprintf("SELECT id, n FROM %s WHERE id IN (SELECT id FROM `%s.csv`);", t, t)
+				case 4:
+					q = fmt.Sprintf("SELECT x.id, x.n FROM %s x WHERE x.id > 0;", t)
+				}
+				s = append(s, fmt.Sprintf("ECHO '@Q %d';", i), q)
 			case "selfu":
 				s = append(s, fmt.Sprintf("ECHO '@Q %d';", i), fmt.Sprintf("SELECT id, n FROM %s FOR UPDATE;", t))
 			case "ins":
-				s = append(s, fmt.Sprintf("ECHO '@W %d';", i), fmt.Sprintf("INSERT INTO %s VALUES (%d, 0);", t, op.Key))
+				tt := t
+				if op.Form == 1 {
+					tt = "`" + t + ".csv`"
+				}
+				s = append(s, fmt.Sprintf("ECHO '@W %d';", i), fmt.Sprintf("INSERT INTO %s VALUES (%d, 0);", tt, op.Key))
 			case "inc":
-				s = append(s, fmt.Sprintf("ECHO '@W %d';", i), fmt.Sprintf("UPDATE %s SET n = n + 1 WHERE id = %d;", t, op.Key))
+				tt := t
+				if op.Form == 1 {
+					tt = "`" + t + ".csv`"
+				}
+				s = append(s, fmt.Sprintf("ECHO '@W %d';", i), fmt.Sprintf("UPDATE %s SET n = n + 1 WHERE id = %d;", tt, op.Key))
 			case "commit":
 				s = append(s, fmt.Sprintf("ECHO '@C %d';", i), "COMMIT;")
 			case "rollback":
@@ -88,14 +108,14 @@ func (c20) Gen(seed uint64, tier string) *Scenario {
 				tb := r.Intn(ntab)
 				switch r.Intn(10) {
 				case 0, 1, 2, 3:
-					ops = append(ops, ObsOp{Kind: "sel", Table: tb})
+					ops = append(ops, ObsOp{Kind: "sel", Table: tb, Form: r.Pick(0, 0, 0, 1, 2, 3, 4)})
 				case 4:
 					ops = append(ops, ObsOp{Kind: "selfu", Table: tb})
 				case 5:
 					uniq++
-					ops = append(ops, ObsOp{Kind: "ins", Table: tb, Key: uniq})
+					ops = append(ops, ObsOp{Kind: "ins", Table: tb, Key: uniq, Form: r.Pick(0, 0, 1)})
 				case 6:
-					ops = append(ops, ObsOp{Kind: "inc", Table: tb, Key: r.Range(1, meta.Rows[tb])})
+					ops = append(ops, ObsOp{Kind: "inc", Table: tb, Key: r.Range(1, meta.Rows[tb]), Form: r.Pick(0, 0, 1)})
 				case 7, 8:
 					ops = append(ops, ObsOp{Kind: "commit"})
 				default:
